@@ -72,6 +72,27 @@ def report(ctx, what, replay):
 SOUP_TYPES = ['int_2', 'int_4_be', 'uint_8', 'char_ascii', 'int_8_be', 'uint_2_be', 'byte', 'boolean']
 IMPLS = ['itch', 'ouch', 'sqf']
 FIX_VERSIONS = {42: '4.2', 44: '4.4', 50: '5.0', 502: '5.0SP2'}
+# every FIX type name of version_types.py, in the order of the 5.0SP2 table (= GenFix.types502 of the model).  The declared type of
+# the dictionary field `F<n>` is a function of n (as everything else in these spec families): INT / STRING by parity for n < 10,
+# FIX_TYPE_NAMES[(n - 10) % 29] from 10 on — so specs cover every type name, in particular the ones a version maps differently
+# (LOCALMKTDATE) or does not know (SEQNUM, NUMINGROUP, FIXSTRING, MULTIPLECHARVALUE, TZTIMEONLY, MULTIPLESTRINGVALUE)
+FIX_TYPE_NAMES = ['AMT', 'BOOLEAN', 'CHAR', 'CURRENCY', 'DATA', 'DAYOFMONTH', 'EXCHANGE', 'FLOAT', 'INT', 'LENGTH', 'LOCALMKTDATE',
+                  'MONTHYEAR', 'MULTIPLEVALUESTRING', 'PRICE', 'PRICEOFFSET', 'QTY', 'STRING', 'UTCDATE', 'UTCTIMEONLY', 'UTCTIMESTAMP',
+                  'COUNTRY', 'PERCENTAGE', 'LONG', 'FIXSTRING', 'MULTIPLECHARVALUE', 'NUMINGROUP', 'SEQNUM', 'TZTIMEONLY',
+                  'MULTIPLESTRINGVALUE']
+# which names a version documents (used only to CHOOSE inputs: mostly dictionaries that are valid for their version)
+FIX_DOCUMENTED = {42: set(FIX_TYPE_NAMES[:23])}
+FIX_DOCUMENTED[44] = FIX_DOCUMENTED[42] | {'SEQNUM', 'NUMINGROUP'}
+FIX_DOCUMENTED[50] = FIX_DOCUMENTED[44] | {'FIXSTRING', 'MULTIPLECHARVALUE'}
+FIX_DOCUMENTED[502] = FIX_DOCUMENTED[50] | {'TZTIMEONLY', 'MULTIPLESTRINGVALUE'}
+FIX_VERSION_SENSITIVE = [10 + FIX_TYPE_NAMES.index(t) for t in ('LOCALMKTDATE', 'SEQNUM', 'NUMINGROUP', 'FIXSTRING', 'MULTIPLECHARVALUE',
+                                                                 'TZTIMEONLY', 'MULTIPLESTRINGVALUE')]
+
+
+def fix_type(n):
+    if n < 10:
+        return 'INT' if n % 2 else 'STRING'
+    return FIX_TYPE_NAMES[(n - 10) % len(FIX_TYPE_NAMES)]
 
 
 def soup_xml(spec):
@@ -137,7 +158,7 @@ def fix_xml(spec):
             '  <field number="35" name="MsgType" type="STRING"/>', '  <field number="10" name="CheckSum" type="STRING"/>',
             f'  <field number="{5000 + sid}" name="Own{sid}" type="INT"/>']
     for n in spec['fields']:
-        out.append(f'  <field number="{6000 + n}" name="F{n}" type="{"INT" if n % 2 else "STRING"}"/>')
+        out.append(f'  <field number="{6000 + n}" name="F{n}" type="{fix_type(n)}"/>')
     for g in spec['counts']:
         out.append(f'  <field number="{7000 + g}" name="NoG{g}" type="NUMINGROUP"/>')
     out += [' </fields>', '</fix>']
@@ -204,10 +225,16 @@ def ev_sx(ev):
         return ['newproj', ev['t'], cps(ev['name']), [[cps(a), p] for a, p in ev['apps']]]
     if g == 'useredit':
         return ['edit', dir_sx(ev['dir']), cps(ev['fname']), ev['n']]
+    if ev.get('phase') == 'generate':
+        return ['generate', ev['gid']]
+    if ev.get('phase') == 'construct':
+        return ['construct', ev['gid'], ev_sx({k: v for k, v in ev.items() if k not in ('phase', 'gid')})]
     opts = [cps(ev['app']), cps(ev['prefix']), bool(ev['init']), dir_sx(ev['dir'])]
     s = ev['spec']
     if g == 'soup':
         root = 'none' if s['root'] is None else [[a, b] for a, b in s['root']]
+        if ev.get('override') is not None:      # `--override-messages` / `--no-override-messages` given explicitly
+            return ['soup', ev['impl'], [s['id'], root, s['uses'], s['msgs']], opts, bool(ev['override'])]
         return ['soup', ev['impl'], [s['id'], root, s['uses'], s['msgs']], opts]
     if g == 'fix':
         return ['fix', [s['id'], s['version'], s['fields'], s['msgfields'], s['groups'], s['counts']], opts]
@@ -235,6 +262,15 @@ def sx_ev(t):
         return {'gen': 'newproj', 't': int(t[1]), 'name': _txt(t[2]), 'apps': [[_txt(a), p] for a, p in t[3]]}
     if g == 'edit':
         return {'gen': 'useredit', 'dir': sx_dir(t[1]), 'fname': _txt(t[2]), 'n': int(t[3])}
+    if g == 'construct':
+        ev = sx_ev(t[2])
+        ev.update(phase='construct', gid=int(t[1]), spec_file=f'specg{int(t[1])}')
+        return ev
+    if g == 'generate':
+        return {'gen': 'generate', 'phase': 'generate', 'gid': int(t[1])}      # completed by `link_phases`
+    override = None
+    if g == 'soup' and len(t) == 5:
+        override, t = (t[4] == 'true'), t[:4]
     o = t[-1]
     ev = {'gen': g, 'app': _txt(o[0]), 'prefix': _txt(o[1]), 'init': o[2] == 'true', 'dir': sx_dir(o[3]), 'spec_file': 'spec'}
     ints = lambda l: [int(x) for x in l]
@@ -242,6 +278,8 @@ def sx_ev(t):
         sp = t[2]
         ev.update(impl=t[1], spec={'id': int(sp[0]), 'root': None if sp[1] == 'none' else [ints(p) for p in sp[1]],
                                    'uses': ints(sp[2]), 'msgs': ints(sp[3])})
+        if override is not None:
+            ev['override'] = override
     elif g == 'fix':
         sp = t[1]
 
@@ -263,9 +301,10 @@ def ev_step(ev):
         p = os.path.join(dir_rel(ev['dir']), ev['fname'])
         return {'gen': g, 'path': p, 'text': user_text(p, ev['n'])}
     st = {'gen': g, 'app': ev['app'], 'prefix': ev['prefix'], 'init': ev['init'], 'dir': dir_rel(ev['dir']),
-          'spec_file': ev.get('spec_file', 'spec'), 'pkg': list(dir_pkg(ev['dir'])), 'fault': ev.get('fault')}
+          'spec_file': ev.get('spec_file', 'spec'), 'pkg': list(dir_pkg(ev['dir'])), 'fault': ev.get('fault'),
+          'phase': ev.get('phase'), 'gid': ev.get('gid')}
     if g == 'soup':
-        st.update(impl=ev['impl'], xml=soup_xml(ev['spec']))
+        st.update(impl=ev['impl'], xml=soup_xml(ev['spec']), override=ev.get('override'))
     elif g == 'fix':
         st.update(xml=fix_xml(ev['spec']), version=FIX_VERSIONS[ev['spec']['version']])
     elif g == 'asn1':
@@ -370,13 +409,28 @@ def run_steps(req):
     ind = os.path.join(base, '_in')
     os.makedirs(ind, exist_ok=True)
     fault = [None, 0]
+    objects = {}            # gid -> (unbound generate, generator object, args, kwargs): constructed, not yet / already generated
     for st in req['steps']:
         del log[:]
         fault[0], fault[1] = st.get('fault'), 0
         outcome, cmd, args = 'ok', None, None
+        phase = st.get('phase')
         try:
             g = st['gen']
-            if g in ('soup', 'fix'):
+            if phase == 'generate':
+                # second half of the generator API: `generator.generate(...)` on the object the entry point built earlier
+                if st['gid'] not in objects:
+                    outcome = 'na-noobject'
+                else:
+                    orig, obj, a, kw = objects[st['gid']]
+                    builtins.open, shutil.rmtree = spy_open, spy_rmtree
+                    so, sys.stdout = sys.stdout, devnull
+                    try:
+                        orig(obj, *a, **kw)
+                    finally:
+                        sys.stdout = so
+                        builtins.open, shutil.rmtree = real_open, real_rmtree
+            elif g in ('soup', 'fix'):
                 if g == 'soup':
                     cmd = __import__(f'nasdaq_protocols.{st["impl"]}.codegen', fromlist=['generate']).generate
                 else:
@@ -390,6 +444,8 @@ def run_steps(req):
                         '--prefix', st['prefix'], '--init-file' if st['init'] else '--no-init-file']
                 if g == 'fix':
                     args += ['--fix-version', st['version']]
+                elif st.get('override') is not None:
+                    args += ['--override-messages' if st['override'] else '--no-override-messages']
             elif g == 'asn1':
                 from nasdaq_protocols.asn1_app import codegen as acg
                 cmd = acg.generate_soup_app
@@ -418,6 +474,11 @@ def run_steps(req):
             else:
                 raise RuntimeError('unknown generator ' + g)
             if cmd is not None:
+                captured, undo = [], []
+                if phase == 'construct':
+                    # first half of the generator API: the real entry point runs (parse, construct the generator object) up to its
+                    # call of `<generator>.generate(...)`, which is recorded instead of executed
+                    undo = _intercept_generate(captured)
                 builtins.open, shutil.rmtree = spy_open, spy_rmtree
                 so, sys.stdout = sys.stdout, devnull
                 try:
@@ -425,11 +486,18 @@ def run_steps(req):
                 finally:
                     sys.stdout = so
                     builtins.open, shutil.rmtree = real_open, real_rmtree
+                    for cls, orig in undo:
+                        cls.generate = orig
+                if phase == 'construct':
+                    if len(captured) == 1:
+                        objects[st['gid']] = captured[0]
+                    else:
+                        outcome = 'err other:harness:entry point called generate() %d times' % len(captured)
         except BaseException as e:  # noqa  (SystemExit / click exceptions included)
             builtins.open, shutil.rmtree = real_open, real_rmtree
             outcome = 'err ' + _err_name(e)
         imp = 'na'
-        if st['gen'] in ('soup', 'fix', 'asn1') and outcome == 'ok':
+        if st['gen'] in ('soup', 'fix', 'asn1') and outcome == 'ok' and phase != 'construct':
             mods = []
             for op, p, _m in log:
                 d, f = os.path.split(p)
@@ -442,6 +510,23 @@ def run_steps(req):
             cfg = _forked(lambda: _config_check(os.path.join(base, st['dir'], st['name'])))
         out.append({'outcome': outcome, 'import': imp, 'cfg': cfg, 'log': [list(x) for x in log], 'snap': _snapshot(base)})
     return out
+
+
+def _intercept_generate(captured):
+    """replaces `generate` of the three generator classes by a recorder; returns [(class, original)] for undoing it"""
+    from nasdaq_protocols.common.message import codegen as mcg
+    from nasdaq_protocols.fix.parser import generator as fgen
+    from nasdaq_protocols.asn1_app import codegen as acg
+    undo = []
+    for cls in (mcg.Generator, fgen.Generator, acg.Ans1Generator):
+        orig = cls.generate
+
+        def recorder(self, *a, _orig=orig, **kw):
+            captured.append((_orig, self, a, kw))
+            return []
+        undo.append((cls, orig))
+        cls.generate = recorder
+    return undo
 
 
 def _config_check(root):
@@ -680,8 +765,8 @@ def model_structure(case, ans, fresh_ans):
 def fresh_event(ev):
     """the invocation alone: own process, own (empty) tree, the same relative directory and options"""
     e = copy.deepcopy(ev)
-    e.pop('spec_file', None)
-    e.pop('fault', None)
+    for k in ('spec_file', 'fault', 'phase', 'gid'):
+        e.pop(k, None)
     return e
 
 
@@ -713,6 +798,18 @@ def oracle(case, real, fresh_real):
             # does depend on more than the spec); what the property says about it is that LATER invocations do not depend on it
             prev_snap = snap
             continue
+        phase = ev.get('phase')
+        if phase == 'construct':
+            # generator API, first half (parse + construct the generator object): the only thing the property says about it alone
+            # is its outcome — a construction that fails must fail exactly as the whole invocation fails when it runs alone
+            fr = fresh_real[fresh_key(ev)]
+            if res['outcome'] != 'ok' and res['outcome'] != fr['outcome']:
+                bad.append((f'constructing the generator: {res["outcome"]}, but the same invocation alone gives {fr["outcome"]}', 'other', k))
+            prev_snap = snap
+            continue
+        if phase == 'generate' and res['outcome'] == 'na-noobject':
+            prev_snap = snap          # its construction failed (judged there)
+            continue
         if g in ('soup', 'fix', 'asn1'):
             fr = fresh_real[fresh_key(ev)]
             d = dir_rel(ev['dir']) + os.sep
@@ -720,12 +817,16 @@ def oracle(case, real, fresh_real):
             mine = {p[len(d):]: t for p, t in snap.items() if p.startswith(d)}
             mine_before = {p[len(d):]: t for p, t in prev_snap.items() if p.startswith(d)}
             ref = {p[len(fd):]: t for p, t in fr['snap'].items() if p.startswith(fd)}
-            earlier_here = [e for e in case[:k] if e['gen'] in ('soup', 'fix', 'asn1', 'newproj', 'useredit')
-                            and any(x == ev['dir'] for x in ev_dirs(e))]
+            own = [j for j, e in enumerate(case[:k]) if phase == 'generate' and e.get('phase') == 'construct' and e.get('gid') == ev['gid']]
+            earlier_here = [e for j, e in enumerate(case[:k]) if e['gen'] in ('soup', 'fix', 'asn1', 'newproj', 'useredit')
+                            and any(x == ev['dir'] for x in ev_dirs(e)) and j not in own]
+            # the ASN.1 generator empties its directory when it is constructed: whatever the directory held before, it must equal
+            # the fresh one — unless something else was put there between the construction and generate()
+            wiped = g == 'asn1' and not (own and any(any(x == ev['dir'] for x in ev_dirs(e)) for e in case[own[-1] + 1:k]))
             # the directory was empty or held only an earlier output of the same target (for the ASN.1 generator, whose file
             # names depend on the input: any earlier ASN.1 output in this directory)
             only_same_target = all(e['gen'] in ('soup', 'fix', 'asn1') and same_target(e, ev) for e in earlier_here) \
-                and (g == 'asn1' or set(mine_before) <= set(ref))
+                and (wiped or set(mine_before) <= set(ref))
             kinds = set()
             what = []
             if res['outcome'] != fr['outcome']:
@@ -767,6 +868,9 @@ def oracle(case, real, fresh_real):
                         what.append(f'import of the regenerated package: {res["import"]}, of the fresh one: {fr["import"]}')
                         if not kinds:
                             kinds.add('other')
+            if phase and kinds:
+                kinds = {'other'}     # (the labels above are about whole invocations; a fresh process cannot be given to generate() alone)
+                what.insert(0, f'generate() of generator {ev["gid"]} (constructed at step {own[-1] if own else "?"})')
             for kind in sorted(kinds):
                 bad.append(('; '.join(what)[:400], kind, k))
         elif g == 'newproj' and res['outcome'] == 'ok':
@@ -827,6 +931,10 @@ class SpecFactory:
         else:
             root, uses = [], ([rng.choice(names)] if rng.random() < 0.3 else [])
         msgs = rng.sample([65, 66, 67, 68], rng.randint(1, 3))
+        if rng.random() < 0.15:
+            # a message id declared twice (same direction when the two positions have the same parity): what happens is decided
+            # by `--override-messages` (the later declaration wins) / `--no-override-messages` (ValueError)
+            msgs.insert(rng.randint(0, len(msgs)), rng.choice(msgs))
         return self._soup(root, uses, msgs)
 
     def _soup(self, root, uses, msgs):
@@ -854,10 +962,29 @@ class SpecFactory:
         kids = [self.tree(depth - 1) for _ in range(rng.choice([0, 0, 1, 2]) if depth > 0 else 0)]
         return [rng.choice(NAMES), [rng.choice(FIELDS) for _ in range(rng.randint(0, 2))], kids]
 
-    def fix(self, groups=None):
+    def typed_fields(self, version):
+        """0..2 fields whose declared type is one of the 29 FIX type names: mostly the names whose mapping depends on the version,
+        mostly documented for `version` (a dictionary that uses an undocumented name fails alone with KeyError — also a result
+        that must not depend on the history)"""
         rng = self.rng
-        groups = groups if groups is not None else [self.tree(rng.choice(DEPTHS)) for _ in range(rng.choice([0, 1, 1, 2]))]
-        msgfields = [rng.choice(FIELDS) for _ in range(rng.randint(0, 2))]
+        out = []
+        for _ in range(rng.choice([0, 0, 1, 1, 2])):
+            pool = FIX_VERSION_SENSITIVE if rng.random() < 0.7 else list(range(10, 10 + len(FIX_TYPE_NAMES)))
+            if rng.random() < 0.85:
+                pool = [n for n in pool if fix_type(n) in FIX_DOCUMENTED[version]] or [10 + FIX_TYPE_NAMES.index('LOCALMKTDATE')]
+            out.append(rng.choice(pool))
+        return out
+
+    def fix(self, groups=None, version=None):
+        rng = self.rng
+        if version is None:
+            version = rng.choice([42, 44, 44, 50, 50, 502, 502])
+        if groups is None:
+            # a 4.2 dictionary cannot declare a group count field (no NUMINGROUP): mostly without groups
+            n = 0 if version == 42 and rng.random() < 0.7 else rng.choice([0, 1, 1, 2])
+            groups = [self.tree(rng.choice(DEPTHS)) for _ in range(n)]
+        typed = self.typed_fields(version)
+        msgfields = [rng.choice(FIELDS) for _ in range(rng.randint(0, 2))] + [n for n in typed if rng.random() < 0.5]
 
         def used(t):
             f, g = set(t[1]), {t[0]}
@@ -871,8 +998,7 @@ class SpecFactory:
             a, b = used(t)
             f |= a
             g |= b
-        extra = {rng.choice(FIELDS)} if rng.random() < 0.4 else set()
-        version = rng.choice([44, 44, 50, 502, 502, 42] if rng.random() < 0.25 else [44, 50, 502])
+        extra = ({rng.choice(FIELDS)} if rng.random() < 0.4 else set()) | set(typed)
         return self._fix(version, sorted(f | extra), msgfields, groups, sorted(g))
 
     def _fix(self, version, fields, msgfields, groups, counts):
@@ -880,9 +1006,16 @@ class SpecFactory:
         sid = self.fix_ids.setdefault(key, len(self.fix_ids) + 1)
         return {'id': sid, 'version': version, 'fields': fields, 'msgfields': msgfields, 'groups': groups, 'counts': counts}
 
+    def fix_other_version(self, s):
+        """the same dictionary file, another `--fix-version`"""
+        v = self.rng.choice([x for x in FIX_VERSIONS if x != s['version']])
+        return self._fix(v, s['fields'], s['msgfields'], s['groups'], s['counts'])
+
     def fix_edit(self, s):
         rng = self.rng
-        c = rng.randrange(3)
+        c = rng.randrange(4)
+        if c == 3:
+            return self.fix_other_version(s)
         if c == 0:
             return self._fix(s['version'], sorted(set(s['fields']) | {rng.choice(FIELDS)}), s['msgfields'], s['groups'], s['counts'])
         if c == 1 and s['groups']:
@@ -899,7 +1032,10 @@ def gen_invocation(rng, sf, kind, d):
     app, prefix = rng.choice(APPS), rng.choice(PREFIXES)
     init = rng.random() < 0.8
     if kind == 'soup':
-        return {'gen': 'soup', 'impl': rng.choice(IMPLS), 'spec': sf.soup(), 'app': app, 'prefix': prefix, 'init': init, 'dir': d}
+        ev = {'gen': 'soup', 'impl': rng.choice(IMPLS), 'spec': sf.soup(), 'app': app, 'prefix': prefix, 'init': init, 'dir': d}
+        if rng.random() < 0.3:
+            ev['override'] = rng.random() < 0.5        # the flag given explicitly (absent: the entry point's default)
+        return ev
     if kind == 'fix':
         return {'gen': 'fix', 'spec': sf.fix(), 'app': app, 'prefix': prefix, 'init': init, 'dir': d}
     spec = sf.asn1()
@@ -927,6 +1063,84 @@ def edit_spec(rng, sf, ev):
     return e
 
 
+def one_option_changed(rng, sf, ev):
+    """the same spec file, exactly one option of the command line changed (every option of every generator can be the one)"""
+    e = copy.deepcopy(ev)
+    g = e['gen']
+    opts = ['app', 'prefix', 'init'] + {'fix': ['version', 'version', 'version'], 'soup': ['override', 'impl'], 'asn1': ['pdu']}[g]
+    o = rng.choice(opts)
+    if o == 'app':
+        e['app'] = rng.choice([a for a in APPS if a != ev['app']])
+    elif o == 'prefix':
+        e['prefix'] = rng.choice([x for x in ('', 'p', 'q') if x != ev['prefix']])
+    elif o == 'init':
+        e['init'] = not ev['init']
+    elif o == 'version':
+        e['spec'] = sf.fix_other_version(ev['spec'])
+    elif o == 'override':
+        e['override'] = rng.choice([x for x in (None, True, False) if x != ev.get('override')])
+        if e['override'] is None:
+            del e['override']
+    elif o == 'impl':
+        e['impl'] = rng.choice([x for x in IMPLS if x != ev['impl']])
+    elif o == 'pdu':
+        e['pdu'] = rng.choice([x for x in ('Pdu1', 'Pdu2', 'Pdu3', 'Pdu4') if x != ev['pdu']])
+    return e
+
+
+def link_phases(evs):
+    """`generate k` events get a copy of the invocation generator k was constructed from (the worker needs its directory and
+    package for the import check, the oracle its fresh run)"""
+    inv = {}
+    out = []
+    for e in evs:
+        if e.get('phase') == 'construct':
+            inv[e['gid']] = e
+        elif e.get('phase') == 'generate' and e['gid'] in inv:
+            e = dict(copy.deepcopy(inv[e['gid']]), phase='generate')
+        out.append(e)
+    return out
+
+
+def gen_phases(rng, sf):
+    """a history at the granularity of the generator API: 2..3 generators, each either run as a whole invocation or split into
+    `construct` (the entry point up to its call of generate(): parse + generator object) and `generate` (0, 1 or 2 times), the
+    steps of the generators interleaved in any order; all in one process"""
+    n = rng.choice([2, 2, 2, 3])
+    kind = rng.choice(['fix', 'fix', 'fix', 'soup', 'soup', 'asn1'])
+    mixed = rng.random() < 0.2
+    gens = []
+    for gid in range(n):
+        k = rng.choice(['soup', 'fix', 'asn1']) if mixed else kind
+        d = ['out', gid + 1] if rng.random() < 0.8 else ['out', 1]
+        same_kind = [x for x in gens if x['gen'] == k]
+        if same_kind and rng.random() < 0.4:
+            prev = rng.choice(same_kind)
+            inv = retarget(rng.choice([copy.deepcopy(prev), edit_spec(rng, sf, prev), one_option_changed(rng, sf, prev)]), d)
+        else:
+            inv = gen_invocation(rng, sf, k, d)
+        inv['spec_file'] = f'specg{gid}'
+        gens.append(inv)
+    seqs = []
+    for gid in range(n):
+        c = rng.random()
+        seqs.append(['full'] if c < 0.2 else ['construct', 'generate'] if c < 0.85 else ['construct', 'generate', 'generate']
+                    if c < 0.93 else ['construct'])
+    if all(s == ['full'] for s in seqs):
+        seqs[0] = ['construct', 'generate']
+    evs = []
+    pos = [0] * n
+    while any(pos[g] < len(seqs[g]) for g in range(n)):
+        g = rng.choice([x for x in range(n) if pos[x] < len(seqs[x])])
+        op = seqs[g][pos[g]]
+        pos[g] += 1
+        e = copy.deepcopy(gens[g])
+        if op != 'full':
+            e.update(phase=op, gid=g)
+        evs.append(e)
+    return evs
+
+
 def other_target(rng, ev):
     e = copy.deepcopy(ev)
     c = rng.randrange(3)
@@ -948,12 +1162,22 @@ def gen_history(rng):
     sf = SpecFactory(rng)
     shape = rng.choice(['single', 'regen', 'regen', 'two-dirs', 'two-dirs', 'edit-rebuild', 'edit-rebuild', 'b-after-a',
                         'b-after-a', 'b-after-a', 'retarget-same-dir', 'mixed3', 'mixed3', 'project', 'project', 'project-gen',
-                        'b-after-failed-a', 'b-after-failed-a'])
+                        'b-after-failed-a', 'b-after-failed-a', 'option-change', 'option-change', 'option-change',
+                        'phases', 'phases', 'phases', 'phases'])
     kind = rng.choice(['soup', 'soup', 'soup', 'fix', 'fix', 'fix', 'asn1'])
     d1, d2, d3 = ['out', 1], ['out', 2], ['out', 3]
     a = gen_invocation(rng, sf, kind, d1)
+    if shape == 'phases':
+        return gen_phases(rng, sf), shape
     if shape == 'single':
         evs = [a]
+    elif shape == 'option-change':
+        # the same spec file again with one option changed (other --fix-version, prefix, app name, init flag, override flag, pdu,
+        # other protocol entry point), into the same or another directory; possibly a third time
+        b = retarget(one_option_changed(rng, sf, a), rng.choice([d1, d2]))
+        evs = [a, b]
+        if rng.random() < 0.4:
+            evs.append(retarget(one_option_changed(rng, sf, rng.choice([a, b])), rng.choice([d1, d2, d3])))
     elif shape == 'regen':
         evs = [a, copy.deepcopy(a)] + ([copy.deepcopy(a)] if rng.random() < 0.3 else [])
     elif shape == 'two-dirs':
@@ -1050,6 +1274,7 @@ def witness_histories(ctx):
             for evs, _l in hs:       # the sx round trip is the identity (self-test of the printer / parser pair)
                 for e in evs:
                     assert sx_ev(parse_sx(sx(ev_sx(e)))[0]) == e, e
+            hs = [(link_phases(evs), l) for evs, l in hs]
             ctx.notes.append(f'{len(hs)} witness histories taken from Witness/C17.lean through the driver')
             return hs + extra
         except Exception as e:  # noqa
@@ -1130,6 +1355,8 @@ def evaluate(ctx, pool, cases, label_of):
         for e in case:
             if e['gen'] != 'newproc':
                 ctx.count('gen:' + e['gen'])
+                if e.get('phase'):
+                    ctx.count('phase:' + e['phase'])
         for r in rl:
             if r != 'newproc':
                 ctx.count('outcome:' + norm_outcome(r['outcome']))
@@ -1309,7 +1536,8 @@ def replay(ctx, path):
             if res == 'newproc':
                 print('--- new process')
                 continue
-            print(f'{ev["gen"]:8} -> {res["outcome"]}, import {res["import"]}, config {res["cfg"]}; files: '
+            what = ev['gen'] + (f' [{ev["phase"]} {ev["gid"]}]' if ev.get('phase') else '')
+            print(f'{what:8} -> {res["outcome"]}, import {res["import"]}, config {res["cfg"]}; files: '
                   + ', '.join(f'{p} ({len(t)} bytes)' for p, t in sorted(res['snap'].items())))
             if ev['gen'] in ('soup', 'fix', 'asn1'):
                 fr = fresh_real[fresh_key(ev)]
